@@ -6,7 +6,7 @@
    implementation's coordinate is place(...) modulo the lattice (1.9e-6 A) and lies inside the cell.  Joint rigid motion of both patterns:
    validated per run for patterns whose pose is unique (partial). *)
 From Coq Require Import List Arith Bool ZArith.
-From Mofun Require Import Model.Atoms Model.Geom Model.Find Model.Replace Proofs.FindProofs Proofs.ReplaceProofs.
+From Mofun Require Import Model.Atoms Model.Geom Model.Find Model.Replace Proofs.FindProofs Proofs.ReplaceProofs Proofs.BondsProofs Proofs.WrapProofs.
 Import ListNotations.
 Open Scope Z_scope.
 
@@ -24,6 +24,24 @@ Print Assumptions C05_rotation_linear.
 Theorem C05_rotation_proper : forall q p r, cross (rotapply q p) (rotapply q r) = vscale (qn2 q) (rotapply q (cross p r)).
 Proof. exact rot_proper. Qed.
 Print Assumptions C05_rotation_proper.
+
+(* wrapping into the cell (positions % 1.0 in fractional coordinates, after fix D6 for triclinic cells): the wrapped point lies inside the
+   cell, is a lattice translate of the unwrapped one, and is THE only such point -- so the per-run check "the implementation's coordinate
+   is a lattice translate of place(...) and lies inside the cell" pins the coordinate down completely *)
+Theorem C05_wrap_inside : forall c p, 0 < det3 c -> inside c (wrap c p).
+Proof. exact wrap_inside. Qed.
+Print Assumptions C05_wrap_inside.
+Theorem C05_wrap_same_site : forall c p, exists i j k, wrap c p = vsub p (lattice c i j k).
+Proof. exact wrap_same_site. Qed.
+Print Assumptions C05_wrap_same_site.
+Theorem C05_inside_and_same_site_is_wrap : forall c p y i j k, 0 < det3 c -> inside c y -> y = vsub p (lattice c i j k) -> y = wrap c p.
+Proof. exact wrap_characterised. Qed.
+Print Assumptions C05_inside_and_same_site_is_wrap.
+Theorem C05_wrap_idempotent : forall c p, 0 < det3 c -> inside c p -> wrap c p = p.
+Proof. exact wrap_idempotent. Qed.
+Print Assumptions C05_wrap_idempotent.
+Example C05_wrap_nonvacuous : wrap ((10, 0, 0), (3, 10, 0), (-2, 4, 10)) (-7, 23, 31) = (6, 1, 1) /\ det3 ((10, 0, 0), (3, 10, 0), (-2, 4, 10)) = 1000.
+Proof. vm_compute. split; reflexivity. Qed.
 
 (* non-vacuity: a quarter turn about z, N = 2 *)
 Example C05_nonvacuous : place (0, 0, 1, 1) (100, 0, 0) (10, 0, 0) = ((200, 20, 0), 2).
